@@ -51,7 +51,14 @@ func c15Name(c C15Listing, f C15File, base time.Time) string {
 	inst := c15Insts[f.Inst%len(c15Insts)]
 	ts := base.Add(time.Duration(f.Hour)*time.Hour + time.Duration(f.Ns))
 	if f.DB < 0 {
-		switch f.Junk % 6 {
+		switch f.Junk % 9 {
+		case 6:
+			// a backup copy of a snapshot / a file of another kind / an instance that only has such files
+			return c.DB + "__" + inst + "__" + snapshot.NameTimestamp(ts) + "__GX.bak.pb.gz"
+		case 7:
+			return c.DB + "__" + inst + "__" + snapshot.NameTimestamp(ts) + "__GX.delta.pb.gz"
+		case 8:
+			return c.DB + "__ghost__" + snapshot.NameTimestamp(ts) + "__GX.old.pb.gz"
 		case 0:
 			return c.DB + "__" + inst
 		case 1:
@@ -233,7 +240,7 @@ func genC15Listing(t *rapid.T) C15Listing {
 			f.DB = rapid.IntRange(1, len(c.Others)).Draw(t, "fdb")
 		default:
 			f.DB = -1
-			f.Junk = rapid.IntRange(0, 5).Draw(t, "junk")
+			f.Junk = rapid.IntRange(0, 8).Draw(t, "junk")
 		}
 		c.Files = append(c.Files, f)
 	}
